@@ -194,6 +194,13 @@ def generate(rng):
             n = rng.choice([0, 1, 2, 3, 5, 8, 12, rng.randint(0, 12)])
             k = rng.choice([0, 1, 3, 6, 12, 30]) if n >= 2 else 0
             bonds = gen_bonds(rng, n, k)
+            if rng.random() < 0.02:
+                # a hub: one atom with more partners than a byte (or a signed byte) can count - a metal centre in a
+                # coarse-grained model, a solvent shell; per-atom counters of one byte would wrap
+                n = rng.choice([140, 270, 300])
+                hub = rng.choice([0, n // 2, n - 1])
+                bonds = [[hub, p, rng.randrange(NTYPES)] if rng.random() < 0.5 else [p, hub, rng.randrange(NTYPES)]
+                         for p in range(n) if p != hub and rng.random() < 0.97]
             # duplicates with another type, reversed pairs, in-range negative indices
             for b in list(bonds):
                 x = rng.random()
